@@ -208,6 +208,17 @@ func (sc *serverConn) Serve() error {
 		// itself is never closed: anything still holding a frame would panic
 		// trying to hand it over.
 		close(sc.writeStop)
+
+		// The write loop closes the connection once it has drained, which is
+		// what ends the read loop and lets Serve return. A peer that has stopped
+		// reading keeps it inside a Write instead, with nobody left to notice:
+		// give it the time a GOAWAY is given elsewhere, then close the
+		// connection from here.
+		select {
+		case <-writeDone:
+		case <-time.After(writeDrainTimeout):
+			_ = sc.c.Close()
+		}
 	}()
 
 	defer func() {
